@@ -6,28 +6,9 @@ KEY_F8 = "C15:expiry-before-wait"
 # observations (findings/C15.json "observations"): behaviour of accepted but absurd / degenerate configurations and of a
 # reply in flight at the expiry.  The faithful model exhibits each of them and the implementation is compared with it; they
 # are reported as KNOWN-FINDING only if known_findings.json lists the key, and never fail the check.
-OBS_WRAP = "C15:interval-duration-overflow"
-OBS_INT63N = "C15:refresh-int63n-panic"
 OBS_LATE = "C15:late-reply-notified"
-
-
-def dedupe_ids(line):
-    """K:/T: tokens with each group once: beyond the Duration bound every entry is due at EVERY 1 ms iteration, so the
-    number of requests per scripted tick depends on how many iterations fit into the observation window (and a few of
-    them are still in flight when an expiry cuts the stream off)."""
-    out = []
-    for tok in line.split():
-        bang = "!" if tok.startswith("!") else ""
-        t = tok[len(bang):]
-        if t[:2] in ("K:", "T:") and "BAD" not in t:
-            ids = sorted(set(x for x in t[2:].split(",") if x), key=int)
-            tok = bang + t[:2] + ",".join(ids)
-        elif t[:1] in ("X", "E") and "+" in t:
-            # requests still in flight when the stream that never pauses is cut off by the expiry (each request is
-            # delivered by its own goroutine): below the model's granularity, see design_notes/C15.md
-            tok = bang + t.split("+", 1)[0]
-        out.append(tok)
-    return " ".join(out)
+# (C15:interval-duration-overflow and C15:refresh-int63n-panic were observations until /repo 38fa1ff made Configure refuse
+# the intervals that caused them; such configurations now print CFGPANIC on both sides.)
 
 
 def observe(chk, case, impl):
@@ -35,19 +16,7 @@ def observe(chk, case, impl):
     c = G.parse_cfg(case)
     toks = impl.split()[2:]
     seen = []
-    if G.duration_wraps(c["mods"]) and any(t[:2] in ("K:", "T:") and len(t) > 2 for t in toks):
-        ticks = [(ev[1], toks[k]) for k, ev in enumerate(c["events"]) if k < len(toks) and ev[0] in ("k", "t")]
-        exp = G.shortest_configured(c["mods"])
-        last = {}
-        for now, t in ticks:
-            ids = [x for x in t.lstrip("!")[2:].split(",") if x.isdigit()]
-            for g in ids:
-                if ids.count(g) > 1 or (g in last and 0 <= now - last[g] < exp * G.NS):
-                    seen.append(OBS_WRAP)
-                last[g] = now
     for k, ev in enumerate(c["events"]):
-        if k < len(toks) and ev[0] in ("r", "rp") and toks[k] == "PANIC":
-            seen.append(OBS_INT63N)
         if k < len(toks) and ev[0] == "af" and toks[k].startswith("AF:") and toks[k].endswith(":1"):
             if any(e[0] == "x" for e in c["events"][:k]) and not any(e[0] == "k" for e in c["events"][max(i for i, e in enumerate(c["events"][:k]) if e[0] == "x"):k]):
                 seen.append(OBS_LATE)
@@ -134,8 +103,12 @@ def cfg_oracle(case, impl):
     Returns a description of the first violation or None."""
     c = G.parse_cfg(case)
     exp = G.shortest_configured(c["mods"])
-    if exp is None or exp < 0 or exp > G.MAX_INTERVAL:
-        return None                  # beyond interval * 10^9 < 2^63 the pacing clause is refuted (C15_pacing_wrap_refuted)
+    if exp is None:
+        return None
+    if not G.accepted(c["mods"]) and (exp < 1 or impl.split()[:1] == ["CFGPANIC"]):
+        # a configuration Configure refuses (CFGPANIC); should an implementation run a loop with an interval beyond
+        # 9223372036 s all the same, the pacing clause below applies to what it does
+        return None
     toks = impl.split()
     if len(toks) < 2 or not toks[0].startswith("MI:"):
         return None
@@ -331,9 +304,9 @@ def run(chk, failed):
                 "non-trivial = at least two modules, or a scenario with a request and a tick without; distinct by the case line")
     impl, model, mism = chk.differential("evalloop", "evalloop", "TestVerifProbeEvalloop", cases, name="evalloop",
                                          project=seq_of, timeout=1500)
-    # configurations whose Duration wraps: the number of requests per tick is not determined (see dedupe_ids)
-    mism = [(i, c, a, m) for (i, c, a, m) in mism
-            if not (c.startswith("cfg ") and G.duration_wraps(G.parse_cfg(c)["mods"]) and dedupe_ids(a) == dedupe_ids(m))]
+    for c, a in zip(cases, impl):
+        if c.startswith("cfg ") and a == "CFGPANIC":
+            chk.count("cfg:refused-by-Configure")
     obs = {}
     for c, a in zip(cases, impl):
         if c.startswith("cfg "):
@@ -445,9 +418,8 @@ def run(chk, failed):
         "from a Broadcast just after it returns",
         "phases are observed through requests arriving on App.EvaluatorChannel (settle 260 ms, window 60 ms; loop polls 1 ms / sleeps 100 ms); "
         "the unsynchronised read of doEvaluations and the hand-over between two request goroutines are below the model's step granularity",
-        "the pacing clause is claimed for 0 <= shortest interval <= 9223372036 s (interval*10^9 < 2^63); beyond it the model wraps as "
-        "Go's int64 does (C15_pacing_wrap_refuted) and the implementation is compared with it up to the number of requests per "
-        "scripted tick; negative intervals are compared on Configure's result only; viper's key lookup / cast (explicit value, else registered default) is "
+        "Configure accepts 1 <= interval <= 9223372036 s for every module (EvalLoop.configure, /repo 38fa1ff): accepted "
+        "configurations are inside the range where the model's arithmetic is exact, refused ones are compared on the refusal; viper's key lookup / cast (explicit value, else registered default) is "
         "EvalLoop.viper_get; processConsumerList's random draw is checked to be in "
         "[0, minInterval*1000) ms and then pinned to the scripted value; lock.Unlock() failing (panic) is modelled but not replayed",
     ]
@@ -467,8 +439,7 @@ def report_cfg(chk, cfgs, badmi):
         impl2, model2, mism2 = chk.differential("evalloop", "evalloop", "TestVerifProbeEvalloop", [c for _, c, _, _ in cfgs],
                                                 name="evalloop_cfg_retry", project=seq_of,
                                                 extra_env={"VERIF_GRACE_MULT": "3"}, timeout=900)
-        cfgs = [(cfgs[j][0], c, a, m) for (j, c, a, m) in mism2
-                if not (G.duration_wraps(G.parse_cfg(c)["mods"]) and dedupe_ids(a) == dedupe_ids(m))]
+        cfgs = [(cfgs[j][0], c, a, m) for (j, c, a, m) in mism2]
         if not cfgs and not badmi:
             return
     reported = 0
@@ -482,10 +453,10 @@ def report_cfg(chk, cfgs, badmi):
         else:
             pending.append((i, c, a, m))
     if badmi:
-        # the loop scenarios configure one null module with interval 0
+        # the loop scenarios configure one null module with interval 1
         i, c, a, m = badmi[0]
-        pending.append((i, G.LOOP_CFG, "MI:%s (as configured for the loop scenarios)" % a[6:], "MI:0"))
-        chk.notes.append("%d loop scenario(s) not run: Configure did not produce minInterval 0 from interval = 0" % len(badmi))
+        pending.append((i, G.LOOP_CFG, "MI:%s (as configured for the loop scenarios)" % a[6:], "MI:1"))
+        chk.notes.append("%d loop scenario(s) not run: Configure did not produce minInterval 1 from interval = 1" % len(badmi))
     if reported >= 3 or not pending:
         return
     seen, focus = set(), []
